@@ -117,6 +117,31 @@ where
             return fail(format!("proof has {} bytes, the law gives {}", psz, want_p));
         }
     }
+    // a proof for several polynomials is the list of their individual proofs: each part depends on its OWN
+    // polynomial's size only (univariate Ligero accepts polynomials of different sizes in one call)
+    if lin > 0 && A::NAME == "ligero_uni" && deg > 4 {
+        let small = PolySpec { l: 9, cls: "full".into(), deg: 2, lz: 0, bound: -1, hid: -1 };
+        let sp_l = crate::session::labeled_poly::<A>(&small, &beh, 0);
+        let mut cr2 = LogRng::new(7);
+        if let Out::Ok((c2, s2)) = guarded(|| A::PC::commit(&ck, std::iter::once(&sp_l), Some(&mut cr2 as &mut dyn RngCore))) {
+            let size_of = |ps: Vec<&LabeledPolynomial<A::F, A::P>>, cs: Vec<&ark_poly_commit::LabeledCommitment<Comm<A>>>, ss: Vec<&CState<A>>| -> Option<usize> {
+                let mut spx = LogSponge::<A::F>::fresh();
+                let mut rx = LogRng::new(8);
+                guarded(|| A::PC::open(&ck, ps, cs, &point, &mut spx, ss, Some(&mut rx as &mut dyn RngCore))).ok().map(|p| p.serialized_size(Compress::Yes))
+            };
+            let big = size_of(vec![&lps[0]], vec![&comms[0]], vec![&states[0]]);
+            let sml = size_of(vec![&sp_l], vec![&c2[0]], vec![&s2[0]]);
+            let both = size_of(vec![&lps[0], &sp_l], vec![&comms[0], &c2[0]], vec![&states[0], &s2[0]]);
+            let rev = size_of(vec![&sp_l, &lps[0]], vec![&c2[0], &comms[0]], vec![&s2[0], &states[0]]);
+            if let (Some(b), Some(s_), Some(j), Some(r)) = (big, sml, both, rev) {
+                if j != b + s_ - 8 || r != j {
+                    return fail(format!("joint opening of a degree-{} and a degree-2 polynomial has {} / {} bytes, the separate proofs {} + {} - 8", deg, j, r, b, s_));
+                }
+            } else {
+                return fail("opening polynomials of two sizes in one call failed".into());
+            }
+        }
+    }
     // verifies, and a batch over two point labels is two such proofs behind one length prefix
     let mut spv = LogSponge::<A::F>::fresh();
     let vals: Vec<A::F> = lps.iter().map(|p| p.evaluate(&point)).collect();
